@@ -81,6 +81,12 @@ def scenario_for(seed, index, tier):
             'net': {'latency_us': rng.choice([50, 500])},
             'sched': {'granularity': 'line', 'max_steps': 400000},
             'listeners': [], 'history': [], 'writes': [], 'login': [],
+            # before its final disconnect() the user thread queues a few
+            # packets: they are flushed by the networking thread or by that
+            # disconnect() itself, and go through the outgoing listeners
+            # (an early one ignores one of them) either way
+            'farewell': make_rng('farewell', ID, seed, index).choice(
+                [0, 2, 5, 5]),
             'rand_seed': rng.randrange(2**32),
         }
     ids = ids_for(proto)
@@ -391,7 +397,7 @@ def reference(sc):
 def execute_registration(scenario, tape):
     w = World(scenario, tape)
     st = {'errs': [], 'calls': [], 'in_play': False, 'net_done': False,
-          'user_done': False}
+          'user_done': False, 'fare': []}
     n = scenario['n']
 
     def build(w):
@@ -430,6 +436,23 @@ def execute_registration(scenario, tape):
             lambda p: st.__setitem__('in_play', True),
             cb.login.LoginSuccessPacket)
 
+        from minecraft.networking.packets import serverbound as sb
+        from minecraft.networking.connection import IgnorePacket
+        fare = scenario.get('farewell', 0)
+
+        def fare_early(p):
+            st['fare'].append(('e', p.message))
+            if p.message == 'farewell-1':
+                raise IgnorePacket
+
+        def fare_late(p):
+            st['fare'].append(('o', p.message))
+        if fare:
+            conn.register_packet_listener(fare_early, sb.play.ChatPacket,
+                                          early=True, outgoing=True)
+            conn.register_packet_listener(fare_late, sb.play.ChatPacket,
+                                          outgoing=True)
+
         def user():
             st['connect'] = w.api('connect', conn.connect)
             w.wait_until(lambda: st['in_play'] or st['errs'], 30000000)
@@ -446,9 +469,14 @@ def execute_registration(scenario, tape):
             # (the networking thread may report its own EOF / closed-file
             # error when another thread disconnects: not our subject)
             st['closing'] = True
+            for i in range(fare):
+                w.api('write', conn.write_packet,
+                      sb.play.ChatPacket(message='farewell-%d' % i))
             w.api('disconnect', conn.disconnect)
             st['quiet'] = w.wait_until(
                 lambda: common.all_net_done(w.sim), 10000000)
+            if fare:
+                w.wait_until(lambda: app.fin_seen, 10000000, budget=20000)
         w.sim.spawn(user, 'user0')
 
     w.run(build)
@@ -487,6 +515,29 @@ def execute_registration(scenario, tape):
                           {'by': who, 'order': seq[:10]}))
                 break
     res.probes['listeners-registered-concurrently'] = 1
+    fare = scenario.get('farewell', 0)
+    if fare and st.get('quiet'):
+        # packets queued just before a user-thread disconnect(): early
+        # outgoing listeners see each once and in order, the ignored one is
+        # not written, ordinary outgoing listeners see exactly the written
+        res.obligations += 3
+        res.probes['farewell-flush-checked'] = 1
+        texts = ['farewell-%d' % i for i in range(fare)]
+        kept = [t for t in texts if t != 'farewell-1']
+        want = {wire.string(t): t for t in texts}
+        wired = [want[bytes(body)] for seq, state, pid, body, meta
+                 in w.server.apps[0].frames if bytes(body) in want]
+        e = [t for k, t in st['fare'] if k == 'e' and t in texts]
+        o = [t for k, t in st['fare'] if k == 'o' and t in texts]
+        if e != texts:
+            V.append(('C13/early-outgoing-listener-calls:farewell-flush',
+                      {'seen': e, 'queued': texts}))
+        elif 'farewell-1' in wired:
+            V.append(('C13/ignored-outgoing-packet-was-written:'
+                      'farewell-flush', {'wire': wired}))
+        elif o != wired or (w.server.apps[0].fin_seen and wired != kept):
+            V.append(('C13/outgoing-listener-calls:farewell-flush',
+                      {'ordinary': o, 'wire': wired, 'expected': kept}))
     return res
 
 
